@@ -6,7 +6,7 @@ from lib.verif import *
 
 THEOREMS = [
     "C07_add_once", "C07_adds_returned_are_decided", "C07_one_response_per_run",
-    "C07_restart_exact", "C07_restart_gap_refuted", "C07_rollback",
+    "C07_restart_exact", "C07_restart_gap_refuted", "C07_rollback", "C07_discipline_invariant",
 ]
 MODULE = "LV.Circuit.Props"
 TARGETS = ["theories/Circuit/Props.vo", "theories/Circuit/Exec.vo", "theories/Circuit/Examples.vo"]
